@@ -126,7 +126,7 @@ fn unchanged(b: &NameBuilder, old: &Raw, i: usize, j: usize) -> bool {
         && (j >= old.n || b.label_offsets[j] == old.offs[j])
 }
 
-// @harness props=C16 tier=quick mem=3 t=600 fn="NameBuilder::new,NameBuilder::is_fully_qualified,NameBuilder::finish"
+// @harness props=C16 tier=quick mem=2 t=600 fn="NameBuilder::new,NameBuilder::is_fully_qualified,NameBuilder::finish"
 //   bound="the initial state (concrete); base case of the induction" sym="k:usize"
 #[kani::proof]
 #[kani::unwind(4)]
@@ -146,7 +146,7 @@ fn c16_builder_new_satisfies_inv() {
     }
 }
 
-// @harness props=C16 tier=quick mem=4 t=900 fn="NameBuilder::try_push"
+// @harness props=C16 tier=quick mem=3 t=1200 fn="NameBuilder::try_push"
 //   bound="one try_push from every state satisfying INV: wire length 1..=255, 1..=128 labels, current label 0..=63 octets, all contents symbolic; no loops"
 //   sym="wire:[u8;255], offs:[u8;128], w, n, label_start, label_len, octet, k, i, j"
 #[kani::proof]
@@ -185,7 +185,7 @@ fn c16_builder_step_try_push() {
     kani::cover!(r.is_err() && w == 255 && old.n == 128, "push into the 128th label rejected");
 }
 
-// @harness props=C16 tier=quick mem=4 t=900 fn="NameBuilder::next_label,NameBuilder::update_label_len"
+// @harness props=C16 tier=quick mem=3 t=1200 fn="NameBuilder::next_label,NameBuilder::update_label_len"
 //   bound="one next_label from every state satisfying INV: wire length 1..=255, 1..=128 labels, current label 0..=63 octets, all contents symbolic; no loops"
 //   sym="wire:[u8;255], offs:[u8;128], w, n, label_start, label_len, k, i, j"
 #[kani::proof]
@@ -268,7 +268,7 @@ fn step_try_push_slice(data: &[u8; 64], len: usize) {
     kani::cover!(r.is_ok() && len == 0, "empty slice accepted");
 }
 
-// @harness props=C16 tier=quick mem=4 t=1200 fn="NameBuilder::try_push_slice"
+// @harness props=C16 tier=quick mem=3 t=1500 fn="NameBuilder::try_push_slice"
 //   bound="one try_push_slice of every slice of 0..=3 octets (symbolic length and contents) from every state satisfying INV; unwind 5"
 //   sym="wire:[u8;255], offs:[u8;128], w, n, label_start, label_len, data:[u8;64], len<=3, k, i, j, p"
 //   stubs="S7"
@@ -282,7 +282,7 @@ fn c16_builder_step_try_push_slice_small() {
     step_try_push_slice(&data, len);
 }
 
-// @harness props=C16 tier=quick mem=4 t=1200 fn="NameBuilder::try_push_slice"
+// @harness props=C16 tier=quick mem=3 t=1200 fn="NameBuilder::try_push_slice"
 //   bound="every slice of 0..=64 octets (symbolic length) from every state satisfying INV in which the slice must be REJECTED (label > 63 or name > 255 afterwards): rejected and state unchanged; unwind 66"
 //   sym="wire:[u8;255], offs:[u8;128], w, n, label_start, label_len, data:[u8;64], len<=64, k, i, j"
 //   stubs="S7"
@@ -306,7 +306,7 @@ fn c16_builder_step_try_push_slice_too_long() {
     kani::cover!(old.w + len == 256 && old.label_len as usize + len <= 63 && len == 40, "slice ending at octet 256 rejected");
 }
 
-// @harness props=C16 tier=thorough mem=8 t=3400 fn="NameBuilder::try_push_slice"
+// @harness props=C16 tier=thorough mem=6 t=3400 fn="NameBuilder::try_push_slice"
 //   bound="one try_push_slice of a slice of exactly 63 octets (symbolic contents) from every state satisfying INV; unwind 66"
 //   sym="wire:[u8;255], offs:[u8;128], w, n, label_start, label_len, data:[u8;64], k, i, j, p"
 //   stubs="S7"
@@ -345,7 +345,7 @@ fn step_try_push_slice_63(data: &[u8; 64]) {
     assert!(inv_label(&b, k), "[C16] try_push_slice preserves the per-label invariant");
 }
 
-// @harness props=C16 tier=quick mem=6 t=1200 fn="NameBuilder::finish,new_boxed_name,Name::initialize_into"
+// @harness props=C16 tier=quick mem=3 t=900 fn="NameBuilder::finish,new_boxed_name,Name::initialize_into"
 //   bound="finish from every state satisfying INV: wire length 1..=255, 1..=128 labels, all contents symbolic (the boxed name has a symbolic size); no loops"
 //   sym="wire:[u8;255], offs:[u8;128], w, n, label_start, label_len, k, i, j"
 #[kani::proof]
@@ -445,7 +445,7 @@ fn suffix_case(sw: &[u8], sn: usize) {
     std::mem::forget(suffix);
 }
 
-// @harness props=C16 tier=quick mem=8 t=1800 fn="NameBuilder::finish_with_suffix,NameBuilder::update_label_len,new_boxed_name,Name::labels"
+// @harness props=C16 tier=thorough mem=6 t=3400 fn="NameBuilder::finish_with_suffix,NameBuilder::update_label_len,new_boxed_name,Name::labels"
 //   bound="finish_with_suffix from every state satisfying INV, suffix one of: root, (1), (3), (1,1) octet labels with symbolic octets; unwind 8"
 //   sym="wire:[u8;255], offs:[u8;128], w, n, label_start, label_len, shape<4, x:[u8;3], k, i, j"
 //   stubs="S7"
